@@ -177,7 +177,15 @@ func BuildCase(g *Gen, t Type, fuel int) *Case {
 
 // Expected evaluates the case with the reference semantics.
 func (cs *Case) Expected(partialReeval bool) (out string, ood string) {
+	return cs.ExpectedUnder(partialReeval, false)
+}
+
+// ExpectedUnder evaluates the case under the defect models of the recorded findings: partialReeval (the
+// supplied arguments of a partial application are re-evaluated at every call) and smatchVarLeak (the variable
+// of a string match's last rule is in scope in the literal arms too).
+func (cs *Case) ExpectedUnder(partialReeval, smatchVarLeak bool) (out string, ood string) {
 	ev := NewEvaluator()
+	ev.SMatchVarLeak = smatchVarLeak
 	ev.PartialReeval = partialReeval
 	ev.Load(PreludeProgram())
 	ev.Load(&Program{Defs: cs.Defs})
